@@ -430,7 +430,10 @@ prop("C05",
      driver=lambda tier, seed, gen, out: ["codec", "-mode", "robust", "-out", out, "-seed", str(seed), "-n",
                                           _t(tier, "3000", "1500000")],
      required=["out:ok", "out:err", "cls:json", "cls:notjson", "origin:slot", "origin:prefix", "origin:random",
-               "origin:deep", "origin:edit"] + ["entry:" + e for e in
+               "origin:deep", "origin:edit"] + ["home:%s:ok" % e for e in
+                                                ["UnmarshalDocument", "UnmarshalResource", "UnmarshalPartialResource",
+                                                 "UnmarshalCollection", "UnmarshalIdentifier", "UnmarshalIdentifiers",
+                                                 "NewRequestPOST", "NewRequestPATCH"]] + ["entry:" + e for e in
                                                  ["UnmarshalDocument", "UnmarshalResource", "UnmarshalPartialResource",
                                                   "UnmarshalCollection", "UnmarshalIdentifier", "UnmarshalIdentifiers",
                                                   "NewRequestPOST", "NewRequestPATCH", "NewRequestGET"]],
@@ -501,6 +504,10 @@ def run_family(pid, tier, seed):
         missing = [c for c in P.get("required", []) if stats["classes"].get(c, 0) == 0]
         if missing:
             raise V.Infra("vacuous run: outcome classes never observed: %s" % missing)
+        forbidden = [c for c in stats["classes"] if c.startswith("home:") and not c.endswith(":ok")]
+        if forbidden and not os.environ.get("VERIF_REPO"):
+            # on the repository itself a base payload refused by its own entry point means the corpus is stale
+            raise V.Infra("base payloads refused by their own entry point: %s" % forbidden)
         tmod, tcfg = P["trace"]
         results = V.validate(scr, tmod, tcfg, evdir)
         consumed = sum(r["consumed"] for r in results)
